@@ -494,9 +494,10 @@ Lemma good_imm_reg s cb prio var s' :
   Good s -> exec_op (OImmReg cb prio var 0) s = Ok s' -> Good s'.
 Proof.
   intros [c [Hc HS]] H. unfold exec_op in H. cbn [Nat.eqb negb] in H.
+  destruct (prio <? PRIO_LIMIT) eqn:Eprio; [|discriminate].
   destruct (imm_register cb prio (next_rid (s_cl s)) (s_imm s)) as [im| | |] eqn:Ei; cbn [bind] in H; try discriminate.
   inversion H; subst s'. clear H.
-  unfold imm_register in Ei. destruct (prio <? PRIO_LIMIT); [|discriminate].
+  unfold imm_register in Ei. rewrite Eprio in Ei.
   destruct (rdn (heads (s_imm s)) prio) as [q| | |] eqn:Eq; cbn [bind] in Ei; try discriminate.
   apply rdn_ok in Eq. inversion Ei; subst im. clear Ei.
   set (rid := next_rid (s_cl s)) in *.
@@ -1263,7 +1264,8 @@ Proof.
   intros HG Hn H. destruct o.
   - (* OImmReg *) destruct af as [|af].
     + eapply good_imm_reg; eauto.
-    + unfold exec_op in H. cbn [Nat.eqb negb] in H. inversion H; subst. apply Good_neutral; simpl; auto.
+    + unfold exec_op in H. cbn [Nat.eqb negb] in H. destruct (prio <? PRIO_LIMIT); [|discriminate].
+      inversion H; subst. apply Good_neutral; simpl; auto.
   - eapply good_imm_cancel; eauto.
   - (* ONetReg *) destruct af as [|af].
     + eapply good_net_reg; eauto.
